@@ -61,6 +61,12 @@ def targets_of_database(path):
             if hasattr(p.header, "right_most_pointer"):
                 add(h + 8, 4, "page.right_most", p.number, parent_of.get(p.number))
                 parent_of[p.header.right_most_pointer] = p.number
+                # every child pointer of this interior page (file offset of the field, child it names): for the
+                # shared-child corruptions (a b-tree turned into a DAG)
+                ptrs = [(p.offset + c.start_offset, c.left_child_pointer) for c in p.cells] + [(h + 8, p.header.right_most_pointer)]
+                combos.append({"kind": "dag", "page": p.number, "page_off": p.offset, "ptrs": ptrs, "is_root": p.number == r,
+                               "children_interior": [n_ for (_, n_) in ptrs
+                                                     if bytes(db.get_page_data(n_, 0, 1)) in (b"\x05", b"\x02")]})
             ptr = h + p.header.header_length
             for i, c in enumerate(p.cells[:6] + p.cells[-2:]):
                 add(ptr + 2 * c.index, 2, "cell.pointer", p.number)
@@ -188,6 +194,38 @@ def corruptions(path, r, limit):
         key = (cb["kind"], cb.get("cell_kind"))
         seen_kinds[key] = seen_kinds.get(key, 0) + 1
         if seen_kinds[key] > 3:
+            continue
+        if cb["kind"] == "dag":
+            ptrs = cb["ptrs"]
+            if len(ptrs) < 2:
+                continue
+            # (a) every child pointer names the first child; (b) two neighbouring pointers name the same child;
+            # (c) the last cell's child is named by the right-most pointer too
+            for name, edits in (("all-to-first", [(o, ptrs[0][1]) for (o, _) in ptrs[1:]]),
+                                ("second-to-first", [(ptrs[1][0], ptrs[0][1])]),
+                                ("rightmost-to-last-cell", [(ptrs[-1][0], ptrs[-2][1])])):
+                d = bytearray(clean)
+                for (o, v) in edits:
+                    apply(d, o, 4, v)
+                yield {"kind": "dag-shared-child", "variant": name, "page": cb["page"]}, bytes(d)
+            # (d) a chain of copies of this page appended to the file, every child pointer of one copy naming the next
+            # copy: without a guard the walk takes fanout**depth steps and is then *accepted*
+            if cb["page"] != 1 and seen_kinds[key] <= 2:
+                depth = 14
+                d = bytearray(clean)
+                orig = bytes(d[cb["page_off"]:cb["page_off"] + ps])
+                rel = [o - cb["page_off"] for (o, _) in ptrs]
+
+                def retarget(target):
+                    pg = bytearray(orig)
+                    for o in rel:
+                        pg[o:o + 4] = int(target).to_bytes(4, "big")
+                    return pg
+                d[cb["page_off"]:cb["page_off"] + ps] = retarget(n + 1)
+                for i in range(1, depth + 1):
+                    d += retarget(n + i + 1) if i < depth else orig
+                apply(d, 28, 4, n + depth)
+                yield {"kind": "dag-chain", "page": cb["page"], "fanout": len(ptrs), "depth": depth}, bytes(d)
             continue
         if cb["kind"] == "freeblock-cycle":
             blocks = cb["blocks"]
